@@ -22,7 +22,7 @@ REPLAYS = os.path.join(HERE, "replays")
 CORPUS = os.path.join(HERE, "corpus")
 DRIVER = os.path.join(LEAN, ".lake", "build", "bin", "uvdriver")
 GUARD = "UNIVERSAL_VERIF_HOOKS"
-NCPU = os.cpu_count() or 4
+NCPU = int(os.environ.get("UV_JOBS", 0)) or os.cpu_count() or 4
 
 sys.path.insert(0, HERE)
 import props as P  # noqa: E402
